@@ -105,24 +105,50 @@ theorem insert_summary (k : Nat) (full : Bool) (sh : Shape) :
     rw [h1, h2]
     refine ⟨h4.1, .inr rfl, by simp [OK_ne_MEMORY_ERROR], by simpa [OK_ne_MEMORY_ERROR] using b.2.2.1, by simp⟩
 
-theorem set_outcome (k : Nat) (sh : Shape) :
-    Good k (allocs sh) {} (setElement k sh).2.2 ∨ Bad k (allocs sh) {} (setElement k sh).2.2 := by
-  rcases setElement_spec k sh {} [] Inv.nil with ⟨_, h⟩ | h
+/-- `fault_of_outcomes` for a call that starts in an arbitrary state `s` (requests are numbered on from `s.count`) -/
+theorem fault_of_outcomes_from {k N : Nat} {s s0 sk : St} (h0 : Good 0 N s s0 ∨ Bad 0 N s s0)
+    (hk : Good k N s sk ∨ Bad k N s sk) :
+    (failIds sk.evs ≠ failIds s.evs ↔ s.count < k ∧ k ≤ s0.count) ∧
+    (failIds sk.evs ≠ failIds s.evs → failIds sk.evs = failIds s.evs ++ [k] ∧ sk.count = k) ∧
+    (failIds sk.evs = failIds s.evs → sk.count = s0.count) := by
+  have hc : s0.count = s.count + N := by
+    rcases h0 with h0 | h0
+    · exact h0.1
+    · have := h0.1; omega
+  rw [hc]
+  rcases hk with hk | hk
+  · unfold Good at hk
+    exact ⟨⟨fun h => absurd hk.2.2 h, fun h => absurd h hk.2.1⟩, fun h => absurd hk.2.2 h, fun _ => hk.1⟩
+  · unfold Bad at hk
+    have hne : failIds sk.evs ≠ failIds s.evs := by
+      rw [hk.2.2.2]; intro h
+      have := congrArg List.length h
+      simp at this
+    exact ⟨⟨fun _ => ⟨hk.1, hk.2.1⟩, fun _ => hne⟩, fun _ => ⟨hk.2.2.2, hk.2.2.1⟩, fun h => absurd h hne⟩
+
+theorem set_outcome (k : Nat) (old : Owned) (sh : Shape) (s : St) (rest : List Nat)
+    (hb : Balanced s.evs (old.ids ++ rest)) (hc : ∀ i ∈ old.ids ++ rest, i ≤ s.count) :
+    Good k (1 + allocs sh) s (setElement k old sh s).2.2 ∨ Bad k (1 + allocs sh) s (setElement k old sh s).2.2 := by
+  rcases setElement_spec k old sh s rest ⟨hb, hc⟩ with ⟨_, h⟩ | h
   · exact .inl h.2.2.1
   · exact .inr h.2.2.1
 
-theorem set_summary (k : Nat) (sh : Shape) :
-    Balanced (setElement k sh).2.2.evs (match (setElement k sh).2.1 with | some g => g | none => []) ∧
-    ((setElement k sh).1 = OK ∨ (setElement k sh).1 = MEMORY_ERROR) ∧
-    ((setElement k sh).1 = OK ↔ (setElement k sh).2.1.isSome) ∧
-    ((setElement k sh).1 = OK ↔ NoFail (setElement k sh).2.2.evs) := by
-  rcases setElement_spec k sh {} [] Inv.nil with ⟨g, h1, h2, h3, h4⟩ | ⟨h1, h2, h3, h4⟩
-  · have g' := good_init h3
-    rw [h1, h2]
-    exact ⟨by simpa using h4.1, .inl rfl, by simp, by simpa using g'.2.2.1⟩
-  · have b := bad_init h3
-    rw [h1, h2]
-    exact ⟨h4.1, .inr rfl, by simp [OK_ne_MEMORY_ERROR], by simpa [OK_ne_MEMORY_ERROR] using b.2.2.1⟩
+theorem set_summary (k : Nat) (old : Owned) (sh : Shape) (s : St) (rest : List Nat)
+    (hb : Balanced s.evs (old.ids ++ rest)) (hc : ∀ i ∈ old.ids ++ rest, i ≤ s.count) :
+    ((setElement k old sh s).1 = OK ∨ (setElement k old sh s).1 = MEMORY_ERROR) ∧
+    ((setElement k old sh s).1 = OK ↔ (setElement k old sh s).2.1.isSome) ∧
+    Balanced (setElement k old sh s).2.2.evs
+      (match (setElement k old sh s).2.1 with | some g => old.obj :: g ++ rest | none => old.ids ++ rest) ∧
+    ((setElement k old sh s).1 = OK ↔ failIds (setElement k old sh s).2.2.evs = failIds s.evs) := by
+  rcases setElement_spec k old sh s rest ⟨hb, hc⟩ with ⟨g, h1, h2, h3, h4⟩ | ⟨h1, h2, h3, h4⟩
+  · rw [h1, h2]
+    exact ⟨.inl rfl, by simp, h4.1, by simpa using h3.2.2⟩
+  · rw [h1, h2]
+    have hne : failIds (setElement k old sh s).2.2.evs ≠ failIds s.evs := by
+      rw [h3.2.2.2]; intro h
+      have := congrArg List.length h
+      simp at this
+    exact ⟨.inr rfl, by simp [OK_ne_MEMORY_ERROR], h4.1, by simpa [OK_ne_MEMORY_ERROR] using hne⟩
 
 -- ---------------------------------------------------------------------------------------------------------------
 -- cif_loop_get_names
